@@ -4,7 +4,9 @@ import random
 
 UNRECOGNISED = ['REM GENRE Rock', 'PERFORMER "Somebody"', 'FLAGS DCP', 'PREGAP 00:02:00', 'CATALOG 1234567890123',
                 'SONGWRITER "x"', 'ISRC ABCDE1234567', 'POSTGAP 00:01:00', 'REM TRACK info', 'TITLE noquotes',
-                'REM INDEX 01 00:00:00', 'CDTEXTFILE "a.cdt"']
+                'REM INDEX 01 00:00:00', 'CDTEXTFILE "a.cdt"',
+                # bare keywords and one-token lines (nothing after the keyword)
+                'REM', 'rem', 'FLAGS', 'PREGAP', 'PERFORMER', 'X', '"', '0', ':', 'REM ""']
 BLANKS = ["", "   ", "\t", " \t "]
 
 
